@@ -713,6 +713,7 @@ fn run_schedule(prefix: &[usize], shared: &Arc<Shared>, bodies: &[Body]) -> (Vec
 }
 
 struct SStats {
+    executed: u64,
     schedules: u64,
     points: u64,
     distinct: BTreeSet<String>,
@@ -729,6 +730,11 @@ fn explore(prefix: Vec<usize>, bound: usize, exact: bool, shared: &Arc<Shared>, 
     let choices: Vec<usize> = trace.iter().map(|t| t.1).collect();
     let cost_upto = |i: usize| -> usize { (0..i).filter(|&j| trace[j].2 && trace[j].1 != 0).count() };
     let total = cost_upto(trace.len());
+    st.executed += 1;
+    if st.executed % 200 == 0 {
+        // heartbeat for the coordinator's silence watchdog
+        println!("H\t{}", st.executed);
+    }
     if !exact || total == bound {
         st.schedules += 1;
         st.points += trace.len() as u64;
@@ -864,7 +870,7 @@ impl Check for C18 {
             let fresh: Vec<Regex> = sc.patterns.iter().map(|(p, f)| Regex::xpath(p, f).unwrap()).collect();
             let expect: Vec<Vec<String>> = sc.bodies.iter().map(|b| b(&fresh)).collect();
             let shared = Arc::new(Shared(regs));
-            let mut st = SStats { schedules: 0, points: 0, distinct: BTreeSet::new(), bad: vec![], diverged: 0 };
+            let mut st = SStats { executed: 0, schedules: 0, points: 0, distinct: BTreeSet::new(), bad: vec![], diverged: 0 };
             // each bound chunk counts exactly the schedules with that many preemptions
             explore(vec![], bound, true, &shared, &sc.bodies, &expect, &mut st);
             out.add("states", st.schedules);
